@@ -307,7 +307,9 @@ func (w *World) operandsOf(h *ssa.Function) (left, right ssa.Value, ph *pairHelp
 
 // sides reports whether v is computed from the left and/or the right operand.
 func sides(v, left, right ssa.Value) (fromL, fromR bool) {
-	backSlice(v, func(x ssa.Value) bool {
+	seenParam := map[*ssa.Parameter]bool{}
+	var visit func(x ssa.Value) bool
+	visit = func(x ssa.Value) bool {
 		if x == left {
 			fromL = true
 			return false
@@ -316,7 +318,31 @@ func sides(v, left, right ssa.Value) (fromL, fromR bool) {
 			fromR = true
 			return false
 		}
+		// the parameter of a function literal that is handed to a helper (anyNode(set, func(n) bool {...})): the helper
+		// feeds it from the other arguments of that call
+		if p, ok := x.(*ssa.Parameter); ok && !seenParam[p] && p.Parent().Parent() != nil {
+			seenParam[p] = true
+			lit := p.Parent()
+			allInstrs(lit.Parent(), func(in ssa.Instruction) {
+				mc, ok := in.(*ssa.MakeClosure)
+				if !ok || mc.Fn != ssa.Value(lit) {
+					return
+				}
+				for _, rr := range referrers(mc) {
+					c, ok := rr.(*ssa.Call)
+					if !ok {
+						continue
+					}
+					for _, a := range c.Call.Args {
+						if a != ssa.Value(mc) {
+							backSlice(a, visit)
+						}
+					}
+				}
+			})
+		}
 		return true
-	})
+	}
+	backSlice(v, visit)
 	return
 }
